@@ -98,6 +98,10 @@ func (m *StrMap[V]) LoadFromSlice(kk []string, vv []V) error {
 		}
 		sz += len(k)
 	}
+	if m.seed == (maphash.Seed{}) {
+		// zero-value StrMap (not created by New): std maphash panics on an uninitialized Seed
+		m.seed = maphash.MakeSeed()
+	}
 	// keys returned by Item alias m.data: never overwrite it, a reload gets a new buffer
 	m.data = make([]byte, 0, sz)
 	m.items = m.items[:0]
